@@ -120,6 +120,9 @@ def comps_for(task, tier):
                                         continue
                                     comp["w_init"] = w0.tolist()
                                 yield comp
+                                if st == "csc" and not np.all(np.any(X, axis=0)) and not var:
+                                    # the same all-zero columns stored as explicit zeros (scipy keeps them after masking)
+                                    yield dict(comp, storage="csc_zeros")
     # default budgets (no harness cap) on the degenerate designs, cold start: the CPU horizon decides termination
     for ix, (xid, X) in enumerate(designs()[:9]):
         if ix % task.get("nparts", 1) != task.get("part", 0):
